@@ -747,6 +747,34 @@ pub fn gen(rng: &mut Rng, tier: Tier, out: &mut Vec<String>) {
         }
         out.push(toks);
     }
+    // skewed affine maps with a sizeable translation: the three basis rows are far from orthogonal (a common
+    // direction plus a small independent part), so det is small against the product of the row lengths
+    // (Hadamard ratio 1e-7..1e-3) although the map is well conditioned — where a singularity guard that is
+    // stricter than rounding requires rejects valid transforms
+    for _ in 0..(if q { 600 } else { 20_000 }) {
+        let d = [fl(rng, 0.5, 1.0), fl(rng, -0.3, 0.3), fl(rng, -0.3, 0.3)];
+        let eps = 10f32.powf(rng.f32_in(-1.7, -0.5));
+        let tt = 10f32.powf(rng.f32_in(0.0, 1.5));
+        let par = rng.bool();
+        let mut e = [[0f32; 4]; 4];
+        for r in 0..3 {
+            let k = fl(rng, 0.6, 1.0);
+            for c in 0..3 {
+                e[r][c] = k * d[c] + eps * fl(rng, -1.0, 1.0);
+            }
+            // half of them: the translation follows the common direction too (the whole 4-rows are nearly
+            // parallel: one large singular value ~ tt, three of the size of the independent part)
+            e[r][3] = if par { k * tt + eps * fl(rng, -1.0, 1.0) } else { tt * fl(rng, 0.7, 1.0) };
+        }
+        e[3] = [0.0, 0.0, 0.0, 1.0];
+        let mut toks = String::from("inv 1 M");
+        for r in 0..4 {
+            for c in 0..4 {
+                toks += &format!(" {}", h32(e[r][c]));
+            }
+        }
+        out.push(toks);
+    }
     // 3x3
     for i in 0..(if q { 1200 } else { 40_000 }) {
         let mut f = vec![];
